@@ -1,7 +1,7 @@
 #!/bin/sh
 # Differential validation of the COMBINATOR-level model of chronobox_fifo (coq/Codec/ChronoWinnow.v over
 # coq/Codec/Winnow.v, extraction unit `c07w`) against the implementation, on the C07 case sets.
-#   tools/c07w_run.sh [tiers="quick thorough"] [seed=1]
+#   tools/c07w_run.sh [tiers="quick thorough"] [seed=1]      (env: C07W_JOBS=16 parallel model slices, C07W_OUT)
 # 1. builds the det harness and the extracted runner (same functions the driver uses),
 # 2. generates the C07 case set of each tier with the existing harness (vdet gen C07 <tier> <seed> <dir>) and
 #    prepends corpus/C07/*.case,
@@ -14,6 +14,7 @@ ROOT=$(cd "$(dirname "$0")/.." && pwd)
 TIERS=${1:-quick thorough}
 SEED=${2:-1}
 OUT=${C07W_OUT:-$ROOT/.build/c07w-run}
+JOBS=${C07W_JOBS:-16}
 rm -rf "$OUT"
 mkdir -p "$OUT"
 
@@ -46,7 +47,15 @@ for TIER in $TIERS; do
   grep '^cb' "$D/gen/cases.txt" >> "$D/cases"
   N=$(wc -l < "$D/cases")
   "$VDET" obs < "$D/cases" > "$D/impl.obs"
-  "$MODEL" < "$D/cases" > "$D/model.obs"
+  # the case lines are independent: run the model on J contiguous slices concurrently, concatenate in order
+  mkdir -p "$D/sl"
+  split -n l/$JOBS -d -a 3 "$D/cases" "$D/sl/c."
+  for s in "$D"/sl/c.*; do
+    "$MODEL" < "$s" > "$D/sl/m.${s##*.}" &
+  done
+  wait
+  cat "$D"/sl/m.* > "$D/model.obs"
+  rm -rf "$D/sl"
   if diff "$D/impl.obs" "$D/model.obs" > "$D/diff.txt"; then
     NT=$(grep -vc '^0 ' "$D/impl.obs" || true)
     echo "c07w $TIER: $N cases ($NT with entries), 0 differences (seed $SEED)"
